@@ -53,7 +53,7 @@ type XNode struct {
 	Children  map[string]*XNode
 	Input     *XNode
 	Output    *XNode
-	Implicit  bool // implicit case
+	Implicit  bool   // implicit case
 	Units     string // Entry.Units (only set by deviations)
 	// observed-only attributes (filled by canon, and by Attribute for the reference)
 	ReadOnly   bool
